@@ -132,6 +132,10 @@ func (w *writer) Message() MessageWriter {
 func (w *writer) Free() {
 	w.close()
 
+	if w.writerState == nil {
+		// state already released: after an error, or on a repeated Free
+		return
+	}
 	if !w.releaseState && !w.releaseWriter {
 		w.free()
 	}
